@@ -54,12 +54,20 @@ MIN_COUNTERS = {
               'grid_queries_after_meter_change': 500,
               'grid_queries_reference_on_grid': 300,
               'next_bar_checked': 50, 'bar_conversions_checked': 100,
-              'rt_programs_finished': 20, 'rt_wake_times_checked': 50},
+              'rt_programs_finished': 20, 'rt_wake_times_checked': 50,
+              'rtc_wakeups_checked': 500, 'rtc_wakeups_checked_function': 200,
+              'rtc_wakeups_checked_routine': 100,
+              'rtc_wakeups_checked_quant-function': 10,
+              'rtc_wakeups_checked_quant-routine': 10,
+              'rtc_reader_reads': 500,
+              'rtc_reader_reads_overlapping_a_wakeup': 20},
     'thorough': {'grid_queries_checked': 500000,
                  'contract_next_time_on_grid': 500000,
                  'observations': 100000, 'wake_times_checked': 100000,
                  'play_first_wakes_checked': 50000,
-                 'rt_programs_finished': 300, 'rt_wake_times_checked': 1000},
+                 'rt_programs_finished': 300, 'rt_wake_times_checked': 1000,
+                 'rtc_wakeups_checked': 20000,
+                 'rtc_reader_reads_overlapping_a_wakeup': 2000},
 }
 
 
@@ -80,6 +88,12 @@ def plan(tier, seed):
         shards.append({'name': f'rt{p}', 'mode': 'rt', 'kind': 'rt',
                        'first_case': f, 'n': n, 'secs': secs,
                        'hard_timeout': secs + 120})
+    # tasks on known beats while plain threads poll the clocks (vf/c12_conc.py)
+    n_rtc, cparts, csecs = (24, 2, 12) if tier == 'quick' else (1200, 3, 300)
+    for p, (f, n) in enumerate(split(n_rtc, cparts)):
+        shards.append({'name': f'rtc{p}', 'mode': 'rt', 'kind': 'rtc',
+                       'first_case': f, 'n': n, 'secs': csecs,
+                       'p_yield': 0.2, 'hard_timeout': csecs + 120})
     return shards
 
 
@@ -101,6 +115,11 @@ def run_shard(spec, acc):
     from vf import c12_contracts as K
     import os
     sc = _sc()
+    if spec['shard']['kind'] == 'rtc':
+        # no contracts here: the readers must stay a tight loop
+        from vf.c12_conc import run_rtc
+        run_rtc(spec, acc, sc)
+        return
     if os.environ.get('VERIF_C12_NO_CONTRACTS'):
         # mutation sanity of the reference-model layer alone (the run is then
         # INCONCLUSIVE by its contract counters, never "held")
